@@ -1,4 +1,5 @@
 """C13 — only configured accounts validate, and only while their validator is active (spec/Accounts.tla)."""
+import concurrent.futures
 import json
 import os
 import random
@@ -16,7 +17,9 @@ def mgr_of(s):
 
 
 def driver(scenarios, tag):
-    """Each scenario runs on the manager it names; the rows come back in scenario order."""
+    """Each scenario runs on the manager it names; the rows come back in scenario order.
+    (The two drivers run one after the other: vf.go_test rewrites one overlay.json per property on every call,
+    a second go test starting at that moment reads a truncated file.)"""
     per = {}
     for mgr, (pkg, test) in DRIVERS.items():
         sel = [s for s in scenarios if mgr_of(s) == mgr]
@@ -42,7 +45,7 @@ def sig_of(s):
 
 def nontrivial(s, rows):
     fam = s.get("family")
-    refreshes = [r for r in rows if r.get("ev") == "Refresh"]
+    refreshes = [r for r in rows if r.get("ev") == "RefreshA"]
     queries = [r for r in rows if r.get("ev") == "Query"]
     if fam == "match":
         # the antecedent of (a): something offered must be refused and something taken
@@ -56,26 +59,69 @@ def nontrivial(s, rows):
                     seen.setdefault(json.dumps(e[1]), set()).add(q["epoch"])
         nq = len([q for q in queries if q["kind"] == "validating"])
         return any(0 < len(v) < nq for v in seen.values())
-    if fam == "hist":
-        # the antecedent of (c): a refresh that fetches nothing while something is known
+    if fam in ("hist", "vanish"):
+        # the antecedent of (c): a refresh that fetches nothing while something is known; and of (b) over a
+        # history: a query answered while the validators manager's table holds a validator that is not (or no
+        # longer) the manager's, or a query / refresh that another call overlapped
         had_known = had_vals = False
-        for r in refreshes:
-            if had_known and mgr_of(s) == "dirk" and not r["offer"]:
+        known = set()
+        for r in rows:
+            ev = r.get("ev")
+            if ev == "RefreshA":
+                if had_known and mgr_of(s) == "dirk" and not r["offer"]:
+                    return True
+                known = set(json.dumps(k) for k in r["known"])
+                had_known = had_known or bool(known)
+            elif ev == "RefreshV":
+                if had_vals and (r["mode"] == "err" or not r["recs"]):
+                    return True
+                had_vals = had_vals or bool(r["vals"])
+                vals = set(json.dumps(p[1]) for p in r["vals"])
+                if vals - known:
+                    return True
+            elif ev in ("QueryCall", "QueryReturn"):
                 return True
-            if had_vals and (r["mode"] == "err" or not r["recs"]):
-                return True
-            had_known = had_known or bool(r["known"])
-            had_vals = had_vals or bool(r["vals"])
         return False
     return False
+
+
+def overlapped(rows):
+    """(refreshes held between their parts with a query inside, queries under way over a refresh part)"""
+    held = over = 0
+    in_refresh = in_query = False
+    for r in rows:
+        ev = r.get("ev")
+        if ev == "RefreshA":
+            in_refresh = True
+            over += 1 if in_query else 0
+        elif ev == "RefreshV":
+            in_refresh = False
+        elif ev == "Query" and in_refresh:
+            held += 1
+            in_refresh = False
+        elif ev == "QueryCall":
+            in_query = True
+        elif ev == "QueryReturn":
+            in_query = False
+    return held, over
 
 
 def scenarios(tier):
     rnd = random.Random(vf.seed())
     out = []
-    # (a) matching: exhaustive over the pattern grammar
-    hs = vf.tlc_scenarios(PID, "Scen_Accounts", "Scen_Accounts_match.cfg", exhaustive=True, timeout=900,
-                          name="scen-match")
+    nl, nh, nv = (140, 200, 160) if tier == "quick" else (4000, 3000, None)
+    with concurrent.futures.ThreadPoolExecutor(max_workers=4) as pool:
+        def gen(cfg, name, **kw):
+            return pool.submit(vf.tlc_scenarios, PID, "Scen_Accounts", cfg, timeout=900, name=name, **kw)
+        # (a) matching: exhaustive over the pattern grammar
+        fm = gen("Scen_Accounts_match.cfg", "scen-match", exhaustive=True)
+        # (b) lifecycles: seeded simulation
+        fl = gen("Scen_Accounts_life.cfg", "scen-life", num=nl, depth=8)
+        # (b) + (c) over histories on one pair of instances: the directed core (enumerated by TLC; all of it in
+        # the thorough tier, a seeded sample in the quick tier) and seeded simulation of longer histories
+        fv = gen("Scen_Accounts_vanish.cfg", "scen-vanish", exhaustive=True)
+        fh = gen("Scen_Accounts_hist.cfg", "scen-hist", num=max(20, nh), depth=48)
+        hs, hl, hv, hh = fm.result(), fl.result(), fv.result(), fh.result()
 
     def anchored(h):
         return any(sp.get("pre") or sp.get("post") for sp in h[0]["cfg"])
@@ -92,13 +138,11 @@ def scenarios(tier):
     # top-level alternations (the shape of the open finding D15); thorough: everything
     sel = plain + (anch[:200] + alts[:24] if tier == "quick" else anch + alts)
     out += [("match", h) for h in sel]
-    # (b) lifecycles and (c) refresh histories: seeded simulation
-    nl, nh = (140, 160) if tier == "quick" else (4000, 3000)
-    hl = vf.tlc_scenarios(PID, "Scen_Accounts", "Scen_Accounts_life.cfg", num=nl, depth=8, timeout=900,
-                          name="scen-life")
     out += [("life", h) for h in hl[:nl]]
-    hh = vf.tlc_scenarios(PID, "Scen_Accounts", "Scen_Accounts_hist.cfg", num=max(20, nh // 8), depth=12, timeout=900,
-                          name="scen-hist")
+    hv.sort(key=lambda h: json.dumps(h, sort_keys=True))
+    rnd.shuffle(hv)
+    out += [("vanish", h) for h in (hv if nv is None else hv[:nv])]
+    hh.sort(key=lambda h: json.dumps(h, sort_keys=True))
     rnd.shuffle(hh)
     out += [("hist", h) for h in hh[:nh]]
     return [{"sc": i + 1, "family": f, "steps": h} for i, (f, h) in enumerate(out)]
@@ -125,7 +169,7 @@ def under_admissions(sc, tracefiles):
         if not os.path.exists(tf):
             continue
         for r in vf.read_ndjson(tf):
-            if r.get("ev") != "Refresh":
+            if r.get("ev") != "RefreshA":
                 continue
             s = byid.get(r["sc"])
             if not s or s["family"] != "match":
@@ -145,6 +189,43 @@ def under_admissions(sc, tracefiles):
     return n, examples
 
 
+def model_checks(tier):
+    mcs = [("MC_Accounts", "MC_Accounts.cfg", False), ("MC_Accounts", "MC_Accounts_overlap.cfg", False)]
+    if tier == "thorough":
+        mcs += [("MC_Accounts", "MC_Accounts_big.cfg", True), ("MC_Accounts", "MC_Accounts_overlap_big.cfg", False)]
+    return mcs
+
+
+CONTROLS = [
+    # design, invariants one of which TLC must report, what it is
+    ("direct", ("NoStrangers",), "by-index lookups that ask the validators manager by index and do not look "
+     "whether the account is (still) held (seeded/C13-byindex-bypasses-known-accounts)"),
+    ("split", ("NoStrangers",), "a query that takes the keys at the call and looks the accounts up again after "
+     "the validators lookup, with a refresh in between"),
+    ("memo", ("ExactlyActive",), "replies memoised on the instance and kept through a refresh"),
+]
+
+
+def selfcheck():
+    """Vacuity: designs that are right on every fresh pair of instances (FreshOnly passes) and wrong only over a
+    history / an overlap must be rejected by TLC."""
+    done = []
+    for design, allowed, what in CONTROLS:
+        r = vf.tlc(PID, "ctl-%s-fresh" % design, "AccountsCtl", "MC_AccountsCtl_%s_fresh.cfg" % design, workers=2,
+                   timeout=600)
+        if not r["ok"]:
+            raise vf.Broken("model self-check failed: control design '%s' is not right on a fresh instance (%s %s)\n%s"
+                            % (design, r["kind"], r["violated"], r["out"][-2000:]))
+        r = vf.tlc(PID, "ctl-%s" % design, "AccountsCtl", "MC_AccountsCtl_%s.cfg" % design, workers=2, timeout=600)
+        if r["kind"] != "invariant" or r["violated"] not in allowed:
+            raise vf.Broken("model self-check failed: %s does not violate %s (%s %s)\n%s" % (
+                what, " / ".join(allowed), r["kind"], r["violated"], r["out"][-2000:]))
+        vf.log("model self-check: control design '%s' passes on fresh instances and violates %s over histories "
+               "(as it must)" % (design, r["violated"]))
+        done.append({"design": design, "violates": r["violated"], "what": what})
+    return done
+
+
 def run(tier):
     v = vf.Verdict(PID, tier)
     v.assumptions = [
@@ -157,26 +238,62 @@ def run(tier):
         "specifier admits but the manager does not take are counted in evidence (under_admissions), not judged",
         "dirk: no Dirk server exists in the sandbox - the service's wallet cache is filled with scripted wallets "
         "over real accounts; gRPC listing / signing is not exercised.  wallet: real filesystem store with real nd "
-        "wallets; its local refresh always sees every account",
+        "wallets; an account is withdrawn from / given back to the store by renaming its file",
+        "histories: one account manager and one validators manager per history (created at Reset, kept to the end); "
+        "per refresh the accounts offered and the beacon node's answer are independent (any of the offers incl. fewer "
+        "than before; answer / failure / empty answer); overlap is controlled at the two places where the calls wait "
+        "on something outside the account manager: the beacon node request of the refresh job (between its accounts "
+        "part and its validators part) and the validators manager's lookup of a query (before or after the real "
+        "lookup).  A query that other calls overlap must be exact for an account set and a table the instances held "
+        "at some moment of the call (each from its own moment); a call the code orders after a held one (a lock kept "
+        "across the wait) is waited for by letting the held call go - only a call that does not return with nothing "
+        "held is the event Hung, a panic is the event Crash (no action of the specification allows either)",
         "regular-expression semantics of Go's regexp package are trusted for what a compiled expression matches; "
         "the specification decides what a specifier MEANS",
     ]
-    v.add_mc(vf.tlc_exhaustive(PID, "MC_Accounts", "MC_Accounts.cfg"))
-    if tier == "thorough":
-        v.add_mc(vf.tlc_exhaustive(PID, "MC_Accounts", "MC_Accounts_big.cfg", coverage=True, timeout=1800))
-    sc = scenarios(tier)
-    vf.conformance(v, sc, driver, "Trace_Accounts", "Trace_Accounts.cfg", sig_of, nontrivial, chunk=400,
-                   tlc_timeout=1500, max_failures=3)
+    with concurrent.futures.ThreadPoolExecutor(max_workers=4) as pool:
+        # the model-checking runs and the self-checks go on beside scenario generation and the drivers
+        futs = [pool.submit(vf.tlc_exhaustive, PID, m, c, 2 if tier == "quick" else 6, 1800, "6g", cov, None) for m, c, cov in model_checks(tier)]
+        fself = pool.submit(selfcheck)
+        try:
+            sc = scenarios(tier)
+            vf.conformance(v, sc, driver, "Trace_Accounts", "Trace_Accounts.cfg", sig_of, nontrivial, chunk=400,
+                           tlc_timeout=1500, max_failures=3)
+        finally:
+            for f in futs:
+                v.add_mc(f.result())
+            v.coverage["control_designs_rejected"] = fself.result()
     d = vf.outdir(PID)
     ua, ex = under_admissions(sc, [os.path.join(d, "trace-batch-%s.ndjson" % m) for m in DRIVERS])
     v.coverage["rule"] = ("(a) every pattern of the grammar (depth 2 over {a,b,.,[ab]} and their stars, plus depth-3 "
                           "shapes with an alternation inside) as a specifier, on both managers, against all names of "
-                          "length <= 3; (b) TLC-simulated validator lifecycles x every query x epochs 0..5; (c) "
-                          "TLC-simulated refresh histories.  non-trivial: (a) something offered is refused and "
-                          "something taken, (b) an account validates at some epoch and not at another, (c) a refresh "
-                          "fetches nothing while something is known; distinct by scenario")
+                          "length <= 3; (b) TLC-simulated validator lifecycles x every query x epochs 0..5; (b)+(c) "
+                          "histories on one pair of long-lived instances: the TLC-enumerated directed core 'vanish' "
+                          "(accounts known, then fewer offered x every outcome of the validators part; the refresh "
+                          "whole / held between its parts / running while a query is under way; all four queries "
+                          "naming every index) and TLC-simulated longer histories (7 offers x 4 node outcomes per "
+                          "refresh, all four queries with 4 index sets, held refreshes, held queries).  non-trivial: "
+                          "(a) something offered is refused and something taken, (b) an account validates at some "
+                          "epoch and not at another, histories: a refresh fetches nothing while something is known, "
+                          "or the validators manager's table holds a validator that is not (no longer) the "
+                          "manager's, or calls overlap; distinct by scenario")
+    held = over = 0
+    per = {}
+    for m in DRIVERS:
+        tf = os.path.join(d, "trace-batch-%s.ndjson" % m)
+        for r in (vf.read_ndjson(tf) if os.path.exists(tf) else []):
+            per.setdefault(r.get("sc"), []).append(r)
+    for rows in per.values():
+        h, o = overlapped(rows)
+        held += h
+        over += o
+    fam = {}
+    for x in sc:
+        fam[x["family"]] = fam.get(x["family"], 0) + 1
     return v.finish(extra={"distinct_lifecycles": lifecycle_coverage(sc), "under_admissions": ua,
-                           "under_admission_examples": ex})
+                           "under_admission_examples": ex, "scenarios_by_family": fam,
+                           "refreshes_with_queries_between_their_parts": held,
+                           "refresh_parts_run_while_a_query_was_under_way": over})
 
 
 def replay(path):
